@@ -11,14 +11,18 @@ EXTENDS Naturals, Sequences, FiniteSets, TLC
 CONSTANTS Chans,      \* channel names, e.g. "1a" = attribute a of instance 1
           ChanSeqs,   \* the channel lists a subscriber may listen to
           Subs, MaxEv, QMaxes,
-          AbandonSubs  \* the subscribers that may give up waiting inside their block (a subset of Subs, to bound the graph)
+          AbandonSubs, \* the subscribers that may give up waiting inside their block (a subset of Subs, to bound the graph)
+          Bursts       \* TRUE: dispatches may follow each other without the receiving tasks getting to run in between
 Filters == {"all", "even"}
 VARIABLES sub,      \* [Subs -> subscriber record]
           order,    \* [Chans -> Seq(Subs)]  subscription order per channel (delivery order)
           nextEv, obs
 core == <<sub, order, nextEv>>
 vars == <<core, obs>>
-Off == [st |-> "off", kind |-> "stream", chs |-> <<>>, flt |-> "all", qmax |-> 0, queue |-> <<>>, waiting |-> FALSE, dead |-> FALSE, got |-> <<>>]
+\* transit: the item handed directly to the waiting receiver, which its task has not looked at yet (the task runs at the next
+\* settling point; until then the receiver is not waiting and further items go to the queue - or overflow)
+Off == [st |-> "off", kind |-> "stream", chs |-> <<>>, flt |-> "all", qmax |-> 0, queue |-> <<>>, waiting |-> FALSE, dead |-> FALSE, got |-> <<>>, transit |-> <<>>]
+NoTransit == \A s \in Subs : sub[s].transit = <<>>
 Init == sub = [s \in Subs |-> Off] /\ order = [a \in Chans |-> <<>>] /\ nextEv = 1 /\ obs = [a |-> "init"]
 Pass(f, n) == f = "all" \/ n % 2 = 0
 Range(q) == {q[i] : i \in DOMAIN q}
@@ -26,40 +30,64 @@ Remove(q, x) == SelectSeq(q, LAMBDA y : y # x)
 Unsub(ord, s) == [a \in Chans |-> Remove(ord[a], s)]
 \* stream_events(signals, filter, max_queue_size=qm): the subscription exists from the moment the block is entered
 Subscribe(s, chs, f, qm) ==
-  /\ sub[s].st = "off"
+  /\ NoTransit /\ sub[s].st = "off"
   /\ sub' = [sub EXCEPT ![s] = [Off EXCEPT !.st = "on", !.chs = chs, !.flt = f, !.qmax = qm]]
   /\ order' = [a \in Chans |-> IF a \in Range(chs) THEN Append(order[a], s) ELSE order[a]]
   /\ UNCHANGED nextEv
   /\ obs' = [a |-> "Subscribe", s |-> s, chs |-> chs, f |-> f, qm |-> qm]
 \* wait_event(signals, filter): a stream with the default queue size whose first item is awaited at once
 WaitEvent(s, chs, f) ==
-  /\ sub[s].st = "off"
+  /\ NoTransit /\ sub[s].st = "off"
   /\ sub' = [sub EXCEPT ![s] = [Off EXCEPT !.st = "on", !.kind = "wait", !.chs = chs, !.flt = f, !.qmax = 50, !.waiting = TRUE]]
   /\ order' = [a \in Chans |-> IF a \in Range(chs) THEN Append(order[a], s) ELSE order[a]]
   /\ UNCHANGED nextEv
   /\ obs' = [a |-> "WaitEvent", s |-> s, chs |-> chs, f |-> f]
-\* one subscriber receives event <<n, ch>>: result <<new record, warned, finished (wait_event returned)>>
+\* one subscriber is sent event <<n, ch>> (anyio's send_nowait): result <<new record, warned>>
 Deliver(r, e) ==
-  IF r.waiting THEN (IF Pass(r.flt, e[1]) THEN <<[r EXCEPT !.waiting = FALSE, !.got = Append(@, e)], FALSE, r.kind = "wait">> ELSE <<r, FALSE, FALSE>>)
-  ELSE IF Len(r.queue) < r.qmax THEN <<[r EXCEPT !.queue = Append(@, e)], FALSE, FALSE>>
-  ELSE <<r, TRUE, FALSE>>
-\* Signal.dispatch(event): never blocks, never raises because of a subscriber; an event of the wrong class is a TypeError
-Dispatch(ch, wrong) ==
-  /\ nextEv <= MaxEv
-  /\ IF wrong THEN /\ UNCHANGED core /\ obs' = [a |-> "Dispatch", ch |-> ch, wrong |-> TRUE, r |-> "TypeError", warns |-> <<>>]
-     ELSE LET e == <<nextEv, ch>>
-              res == [s \in Subs |-> IF s \in Range(order[ch]) THEN Deliver(sub[s], e) ELSE <<sub[s], FALSE, FALSE>>]
-              fin == {s \in Subs : res[s][3]} IN
-          /\ sub' = [s \in Subs |-> IF s \in fin THEN [res[s][1] EXCEPT !.st = "done", !.queue = <<>>] ELSE res[s][1]]
-          /\ order' = [a \in Chans |-> SelectSeq(order[a], LAMBDA y : y \notin fin)]
-          /\ nextEv' = nextEv + 1
-          /\ obs' = [a |-> "Dispatch", ch |-> ch, wrong |-> FALSE, n |-> nextEv, r |-> "ok",
-                     warns |-> [i \in 1..Cardinality({s \in Subs : res[s][2]}) |-> "w"]]
-\* the consumer asks for the next item: items that do not pass the filter are discarded; with nothing left it waits
+  IF r.waiting THEN <<[r EXCEPT !.waiting = FALSE, !.transit = <<e>>], FALSE>>
+  ELSE IF Len(r.queue) < r.qmax THEN <<[r EXCEPT !.queue = Append(@, e)], FALSE>>
+  ELSE <<r, TRUE>>
 RECURSIVE FirstPass(_, _)
 FirstPass(q, f) == IF q = <<>> THEN 0 ELSE IF Pass(f, Head(q)[1]) THEN 1 ELSE (LET r == FirstPass(Tail(q), f) IN IF r = 0 THEN 0 ELSE r + 1)
+\* the receiving task gets to run: it looks at the item it was handed; if that does not pass the filter it goes on with the queue,
+\* and waits again when nothing passes. Result <<new record, finished (wait_event returned)>>
+SettleOne(r) ==
+  IF r.transit = <<>> THEN <<r, FALSE>>
+  ELSE LET items == r.transit \o r.queue
+           i == FirstPass(items, r.flt) IN
+       IF i = 0 THEN <<[r EXCEPT !.transit = <<>>, !.queue = <<>>, !.waiting = TRUE], FALSE>>
+       ELSE <<[r EXCEPT !.transit = <<>>, !.queue = SubSeq(items, i + 1, Len(items)), !.got = Append(@, items[i])], r.kind = "wait">>
+Settled(f) ==      \* f: [Subs -> record]; everybody's task runs
+  LET a == [s \in Subs |-> SettleOne(f[s])]
+      fin == {s \in Subs : a[s][2]} IN
+  [subs |-> [s \in Subs |-> IF s \in fin THEN [a[s][1] EXCEPT !.st = "done", !.queue = <<>>] ELSE a[s][1]], fin |-> fin]
+\* Signal.dispatch(event): never blocks, never raises because of a subscriber; an event of the wrong class is a TypeError.
+\* settle = TRUE: the receiving tasks run before anything else happens (the usual case: the dispatcher reaches a checkpoint);
+\* settle = FALSE (only with Bursts): the next dispatch follows at once
+Dispatch(ch, wrong, settle) ==
+  /\ nextEv <= MaxEv /\ (settle \/ Bursts)
+  /\ IF wrong THEN /\ settle /\ NoTransit /\ UNCHANGED core
+                    /\ obs' = [a |-> "Dispatch", ch |-> ch, wrong |-> TRUE, settle |-> TRUE, r |-> "TypeError", warns |-> <<>>]
+     ELSE LET e == <<nextEv, ch>>
+              res == [s \in Subs |-> IF s \in Range(order[ch]) THEN Deliver(sub[s], e) ELSE <<sub[s], FALSE>>]
+              sent == [s \in Subs |-> res[s][1]]
+              after == IF settle THEN Settled(sent) ELSE [subs |-> sent, fin |-> {}] IN
+          /\ sub' = after.subs
+          /\ order' = [a \in Chans |-> SelectSeq(order[a], LAMBDA y : y \notin after.fin)]
+          /\ nextEv' = nextEv + 1
+          /\ obs' = [a |-> "Dispatch", ch |-> ch, wrong |-> FALSE, settle |-> settle, n |-> nextEv, r |-> "ok",
+                     warns |-> [i \in 1..Cardinality({s \in Subs : res[s][2]}) |-> "w"]]
+\* the end of a burst: the dispatcher reaches a checkpoint, every receiving task runs
+Settle ==
+  /\ ~NoTransit
+  /\ LET after == Settled(sub) IN
+     /\ sub' = after.subs
+     /\ order' = [a \in Chans |-> SelectSeq(order[a], LAMBDA y : y \notin after.fin)]
+  /\ UNCHANGED nextEv
+  /\ obs' = [a |-> "Settle"]
+\* the consumer asks for the next item: items that do not pass the filter are discarded; with nothing left it waits
 Consume(s) ==
-  /\ sub[s].st = "on" /\ sub[s].kind = "stream" /\ ~sub[s].waiting /\ ~sub[s].dead
+  /\ NoTransit /\ sub[s].st = "on" /\ sub[s].kind = "stream" /\ ~sub[s].waiting /\ ~sub[s].dead
   /\ LET r == sub[s] i == FirstPass(r.queue, r.flt) IN
      IF i = 0 THEN /\ sub' = [sub EXCEPT ![s] = [r EXCEPT !.queue = <<>>, !.waiting = TRUE]]
                    /\ obs' = [a |-> "Consume", s |-> s, r |-> "blocked"]
@@ -69,13 +97,13 @@ Consume(s) ==
 \* the consumer gives up waiting for the next item (a timeout around __anext__) but stays inside its stream block: its iterator is
 \* finished, the subscription and the queue remain until the block is left; dispatch must go on treating it like any slow subscriber
 Abandon(s) ==
-  /\ s \in AbandonSubs /\ sub[s].st = "on" /\ sub[s].kind = "stream" /\ sub[s].waiting
+  /\ NoTransit /\ s \in AbandonSubs /\ sub[s].st = "on" /\ sub[s].kind = "stream" /\ sub[s].waiting
   /\ sub' = [sub EXCEPT ![s] = [@ EXCEPT !.waiting = FALSE, !.dead = TRUE]]
   /\ UNCHANGED <<order, nextEv>>
   /\ obs' = [a |-> "Abandon", s |-> s]
 \* the subscriber leaves its stream block (or its wait_event call is cancelled), whatever it was doing
 Leave(s) ==
-  /\ sub[s].st = "on"
+  /\ NoTransit /\ sub[s].st = "on"
   /\ sub' = [sub EXCEPT ![s] = [@ EXCEPT !.st = "done", !.waiting = FALSE, !.dead = FALSE, !.queue = <<>>]]
   /\ order' = Unsub(order, s)
   /\ UNCHANGED nextEv
@@ -84,13 +112,14 @@ Leave(s) ==
 \* UnboundSignal and leaves nothing behind: the bound signal listed before it is not left subscribed, later dispatches are unaffected.
 \* (One representative per state: the first idle subscriber, <<ch, unbound>>, the kind alternating with the event counter.)
 BadSubscribe(s, ch) ==
-  /\ sub[s].st = "off" /\ \A t \in Subs : t < s => sub[t].st # "off"
+  /\ NoTransit /\ sub[s].st = "off" /\ \A t \in Subs : t < s => sub[t].st # "off"
   /\ nextEv <= MaxEv
   /\ UNCHANGED core
   /\ obs' = [a |-> "BadSubscribe", s |-> s, ch |-> ch, kind |-> IF nextEv % 2 = 0 THEN "wait" ELSE "stream", r |-> "UnboundSignal"]
 Next == \/ \E s \in Subs, chs \in ChanSeqs, f \in Filters, qm \in QMaxes : Subscribe(s, chs, f, qm)
         \/ \E s \in Subs, chs \in ChanSeqs, f \in Filters : WaitEvent(s, chs, f)
-        \/ \E ch \in Chans, w \in BOOLEAN : Dispatch(ch, w)
+        \/ \E ch \in Chans, w \in BOOLEAN, st \in BOOLEAN : Dispatch(ch, w, st)
+        \/ Settle
         \/ \E s \in Subs : Consume(s) \/ Leave(s) \/ Abandon(s)
         \* last, so that the walker (which takes a state's transitions from the end of the dump) tries it before the dispatches
         \/ \E s \in Subs, ch \in Chans : BadSubscribe(s, ch)
@@ -106,5 +135,9 @@ Registered == \A a \in Chans : \A i \in DOMAIN order[a] : sub[order[a][i]].st = 
 \* wait_event returns exactly one event
 WaitOne == \A s \in Subs : sub[s].kind = "wait" => Len(sub[s].got) <= 1 /\ (Len(sub[s].got) = 1 <=> sub[s].st = "done" /\ ~sub[s].waiting /\ sub[s].got # <<>>)
 \* a dispatch touches only the subscribers of its own channel (C11)
-Isolation == [][obs'.a = "Dispatch" => \A s \in Subs : (obs'.ch \notin Range(sub[s].chs)) => sub'[s] = sub[s]]_vars
+\* (a receiver that was handed an item during a burst gets to run when the burst ends, whichever dispatch ends it)
+Isolation == [][obs'.a = "Dispatch" => \A s \in Subs : (obs'.ch \notin Range(sub[s].chs) /\ sub[s].transit = <<>>) => sub'[s] = sub[s]]_vars
+\* without bursts nobody is ever seen in transit; in transit means: was waiting, is not waiting, holds exactly one item of its own channels
+TransitOnlyInBursts == \A s \in Subs : /\ (~Bursts => sub[s].transit = <<>>)
+                                       /\ (sub[s].transit # <<>> => Len(sub[s].transit) = 1 /\ ~sub[s].waiting /\ sub[s].st = "on" /\ sub[s].transit[1][2] \in Range(sub[s].chs))
 =============================================================================
